@@ -47,6 +47,12 @@ Enc(m, tag) ==
   \cup {<<Ref("I" \o tag, <<>>), <<Alias("A" \o tag, TypeLit(p[1])), Interface("M" \o tag, <<"A" \o tag>>, <<>>), Interface("I" \o tag, <<"M" \o tag>>, p[2])>>>> : p \in Parts(m)}
   \cup {<<Ref("I" \o tag, <<>>), <<Interface("I" \o tag, <<>>, p[1]), Interface("I" \o tag, <<>>, p[2])>>>> : p \in Parts(m)}
   \cup {<<Ref("I" \o tag, <<>>), <<Interface("B" \o tag, <<>>, p[1]), Interface("I" \o tag, <<"B" \o tag>>, p[2])>>>> : p \in Parts(m)}
+  \* parents with type arguments (`extends Omit<B, 'xx'>`, `extends Partial<B>`), a later merged declaration that adds a parent
+  \cup {<<Ref("I" \o tag, <<>>), <<Interface("B" \o tag, <<>>, Append(p[1], Prop("xx", "ident", FALSE, Num))),
+                                   InterfaceX("I" \o tag, <<Ref("Omit", <<Ref("B" \o tag, <<>>), LitT("str", "xx")>>)>>, p[2])>>>> : p \in Parts(m)}
+  \cup {<<Ref("I" \o tag, <<>>), <<Interface("B" \o tag, <<>>, p[1]),
+                                   InterfaceX("I" \o tag, <<Ref("Pick", <<Ref("B" \o tag, <<>>), UnionT(<<LitT("str", "a"), LitT("str", "b"), LitT("str", "m"), LitT("str", "g"), LitT("str", "foo-bar")>>)>>)>>, p[2])>>>> : p \in Parts(m)}
+  \cup {<<Ref("I" \o tag, <<>>), <<Interface("B" \o tag, <<>>, p[2]), Interface("I" \o tag, <<>>, p[1]), Interface("I" \o tag, <<"B" \o tag>>, <<>>)>>>> : p \in Parts(m)}
   \cup {<<InterT(<<TypeLit(p[1]), Ref("T" \o tag, <<>>)>>), <<Alias("T" \o tag, TypeLit(p[2]))>>>> : p \in Parts(m)}
   \cup {<<InterT(<<Ref("I" \o tag, <<>>), ParenT(TypeLit(p[2]))>>), <<Interface("I" \o tag, <<>>, p[1])>>>> : p \in Parts(m)}
 
